@@ -385,6 +385,16 @@ pub struct Script {
     pub ttl_c: u8,
     pub ttl_s: u8,
     pub frames: Vec<Vec<u8>>,
+    /// non-zero: segments without SYN get per-packet values in the IP header fields that do not
+    /// belong to a connection's identity (IPv6 flow label, IPv4 identification); the cell holds
+    /// the generator state
+    pub vary_ip: std::cell::Cell<u64>,
+    /// IPv4 flag bits for every packet of the connection (e.g. 0b001: More Fragments set with
+    /// offset 0 -- a first fragment that holds the whole segment)
+    pub v4_flags: Option<u8>,
+    /// every second IPv4 packet of the connection carries a 4-byte IP option (Router Alert)
+    pub v4_opt_alt: bool,
+    pkt_no: std::cell::Cell<u64>,
 }
 
 impl Script {
@@ -399,10 +409,34 @@ impl Script {
             ttl_c: 64,
             ttl_s: 60,
             frames: Vec::new(),
+            vary_ip: std::cell::Cell::new(0),
+            v4_flags: None,
+            v4_opt_alt: false,
+            pkt_no: std::cell::Cell::new(0),
         }
     }
     pub fn seg(&self, from_client: bool, seq: u32, ack: u32, fl: u8, options: Vec<u8>, payload: &[u8]) -> Vec<u8> {
-        let ip = self.ep.ip_hdr(from_client, if from_client { self.ttl_c } else { self.ttl_s });
+        let mut ip = self.ep.ip_hdr(from_client, if from_client { self.ttl_c } else { self.ttl_s });
+        let st = self.vary_ip.get();
+        if st != 0 && fl & flags::SYN == 0 {
+            let mut x = st.wrapping_mul(0x9E37_79B9_7F4A_7C15).wrapping_add(0x1234_5678_9abc_def1);
+            x ^= x >> 29;
+            self.vary_ip.set(x | 1);
+            match &mut ip {
+                Ip::V6(h) => h.flow = (x >> 20) as u32 & 0xfffff,
+                Ip::V4(h) => h.id = 1 + ((x >> 24) as u16 % 0xfffe),
+            }
+        }
+        let no = self.pkt_no.get();
+        self.pkt_no.set(no + 1);
+        if let Ip::V4(h) = &mut ip {
+            if let Some(f) = self.v4_flags {
+                h.flags = f;
+            }
+            if self.v4_opt_alt && no % 2 == 1 {
+                h.options = vec![0x94, 0x04, 0x00, 0x00];
+            }
+        }
         let (sp, dp) = if from_client { (self.ep.cport, self.ep.sport) } else { (self.ep.sport, self.ep.cport) };
         let tcp = Tcp {
             sport: sp,
